@@ -489,3 +489,41 @@ def step_of(ctx, fi, stmt, target_text: str):
             if r == target_text and const(v.left) is not None and isinstance(v.op, ast.Add):
                 return const(v.left)
     return None
+
+
+# --------------------------------------------------------------------------
+def opaque_dispatch(ctx, cls) -> list:
+    """Constructs in the methods of ``cls`` that call something the analysis
+    cannot resolve statically on an element of a collection: a hook looked up
+    with getattr(), a bound method fetched into a variable and called, a
+    callable taken from a table.  Where such a construct exists, the *absence*
+    of a direct call proves nothing - the rule must refuse, not report."""
+    out = []
+    for m in cls.methods.values():
+        names_from_getattr = set()
+        for n in own_nodes(m.node):
+            if isinstance(n, ast.Assign) and isinstance(n.value, ast.Call) and isinstance(n.value.func, ast.Name) and n.value.func.id == "getattr":
+                names_from_getattr |= {t.id for t in n.targets if isinstance(t, ast.Name)}
+        for n in own_nodes(m.node):
+            if isinstance(n, ast.Call):
+                f = n.func
+                if isinstance(f, ast.Call) and isinstance(f.func, ast.Name) and f.func.id == "getattr":
+                    out.append((m, n))
+                elif isinstance(f, ast.Name) and f.id in names_from_getattr:
+                    out.append((m, n))
+                elif isinstance(f, ast.Attribute) and isinstance(f.value, ast.Call) and isinstance(f.value.func, ast.Name) and f.value.func.id == "methodcaller":
+                    out.append((m, n))
+    return out
+
+
+def ctor_self_write(w) -> bool:
+    """The write initialises the object under construction: it happens in
+    ``__init__`` / ``__post_init__`` and its target is rooted at that method's
+    own ``self``.  A freshly created private helper object is not shared state."""
+    fi = w.fi
+    if fi.name not in ("__init__", "__post_init__") or not fi.params:
+        return False
+    obj = w.obj
+    while isinstance(obj, (ast.Attribute, ast.Subscript)):
+        obj = obj.value
+    return isinstance(obj, ast.Name) and obj.id == fi.params[0]
